@@ -45,6 +45,7 @@ theorem measure_decreases {cfg : Cfg} {s s' : State} {l : Label} (h1 : Inv1 cfg 
   have ht := rankT_le s.timer
   cases l with
   | srcRet ev => cases hl
+  | srcCancelErr w => cases hl
   | nextCall live => cases hl
   | ctxExpire => cases hl
   | tick d => cases hl
